@@ -14,11 +14,13 @@ import treeutil
 
 ID = 'C03'
 NOT_READY = None
-LEAN_MODULES = ['Yaql.Props.C03', 'Yaql.Props.C03Lex', 'Yaql.Props.C03Parse']
+LEAN_MODULES = ['Yaql.Props.C03', 'Yaql.Props.C03Lex', 'Yaql.Props.C03Parse', 'Yaql.Props.C03Bound']
 REQUIRED_THEOREMS = ['Yaql.Props.C03.total_classified', 'Yaql.Props.C03.lexical_position_inside',
                      'Yaql.Props.C03.grammar_position_inside', 'Yaql.Props.C03.parseText_eq_parse',
                      'Yaql.Props.C03.grammar_before_later_lexical', 'Yaql.Props.C03Lex.nextTok_progress',
-                     'Yaql.Props.C03Lex.conversions_total', 'Yaql.Props.C03Parse.parse_total_classified']
+                     'Yaql.Props.C03Lex.conversions_total', 'Yaql.Props.C03Parse.parse_total_classified',
+                     'Yaql.Props.C03Bound.tokens_printable', 'Yaql.Props.C03Bound.grammar_error_value_printable',
+                     'Yaql.Props.C03Bound.over_limit_numeral_stops', 'Yaql.Props.C03Bound.digitsVal_lt']
 TRUSTED = ["ply's LALR(1) table construction and its token/rule dispatch (modelled by its documented effect)",
            "CPython's re, codecs.decode('unicode-escape'), int()/float() text conversion"]
 ASSUMPTIONS = ['lone surrogates are thrown at the real parser only (Lean Char is a scalar value)']
@@ -73,6 +75,80 @@ def judge(text, out):
 
 class Timeout(Exception):
     pass
+
+
+BOUNDARY_BASES = VALID + ['1 +', '(1', 'f(1,', '[1, 2', 'a b', '$x.', '{a =>', '1 2', 'f(1) g(2)', ')', 'not', '$.a.b ~', "'s' 's'"]
+
+
+def token_spans(engine, text):
+    """(start, end) of every token the engine's own lexer finds in `text` (up to a lexical error)"""
+    lx = engine.lexer.clone()
+    lx.input(text)
+    spans = []
+    while True:
+        try:
+            t = lx.token()
+        except Exception:       # noqa
+            break
+        if t is None:
+            break
+        spans.append((t.lexpos, lx.lexpos))
+    return spans
+
+
+def boundary_tokens(tier):
+    """tokens at the size limits of the conversions a token action (or an error message) performs: numerals around the
+    interpreter's int<->str digit limit with and without a dot, and very long words / variables / calls / strings"""
+    import sys
+    limit = sys.get_int_max_str_digits() or 4300
+    sizes = [limit - 1, limit, limit + 1, limit + 700] + ([2 * limit, 3 * limit + 1] if tier == 'thorough' else [])
+    out = []
+    for n in sizes:
+        out += [('int%+d' % (n - limit), '9' * n), ('int%+d' % (n - limit), '1' + '0' * (n - 1))]
+    for n in (limit, limit + 1):
+        out += [('float', '1' * n + '.5'), ('float', '0.' + '1' * n), ('zeros', '0' * n + '7')]
+    big = 5000
+    out += [('word', 'a' * big), ('var', '$' + 'b' * big), ('call', 'f' * big + '('), ('dunder', '__' + 'x' * big),
+            ('str', "'" + 'c' * big + "'"), ('str', '"' + 'c' * big + '\\x4"'), ('str', '`' + 'c' * big + '`'),
+            ('unterminated', "'" + 'c' * big)]
+    return out
+
+
+def gen_boundary(rng, engine, tier):
+    """every boundary-size token in EVERY syntactic position: alone, before and after every atom of the alphabet, inserted
+    at every token gap of valid and invalid expressions and substituted for every one of their tokens - so it also stands
+    where the grammar expects no value, no operator, or nothing at all"""
+    toks = boundary_tokens(tier)
+    quick = tier == 'quick'
+    for name, b in toks:
+        yield 'boundary-alone', b
+        for a in ATOMS:
+            if quick and rng.random() < 0.5:
+                continue
+            yield 'boundary-seq2', a + ' ' + b
+            yield 'boundary-seq2', b + ' ' + a
+            if rng.random() < 0.1:
+                yield 'boundary-seq3', a + ' ' + b + ' ' + rng.choice(ATOMS)
+                yield 'boundary-seq3', rng.choice(ATOMS) + ' ' + a + ' ' + b
+    for v in BOUNDARY_BASES:
+        spans = token_spans(engine, v)
+        gaps = sorted(set([0, len(v)] + [s for s, _ in spans] + [e for _, e in spans]))
+        for name, b in toks:
+            for g in gaps:
+                if quick and rng.random() < 0.6:
+                    continue
+                yield 'boundary-inserted', v[:g] + ' ' + b + ' ' + v[g:]
+            for s_, e_ in spans:
+                if quick and rng.random() < 0.6:
+                    continue
+                yield 'boundary-substituted', v[:s_] + ' ' + b + ' ' + v[e_:]
+    for _ in range(100 if quick else 1500):
+        k = rng.randrange(2, 8)
+        parts = [rng.choice(ATOMS) for _ in range(k)]
+        parts[rng.randrange(k)] = rng.choice(toks)[1]
+        if rng.random() < 0.3:
+            parts[rng.randrange(k)] = rng.choice(toks)[1]
+        yield 'boundary-soup', ' '.join(parts)
 
 
 def gen_texts(rng, tier):
@@ -219,7 +295,7 @@ def run(env, res):
         rp = json.load(open(env['replay']))['case']
         items = [(rp.get('kind', 'replay'), rp['text'])]
     else:
-        items = gen_texts(rng, tier)
+        items = itertools.chain(gen_texts(rng, tier), gen_boundary(rng, engines['default'], tier))
 
     def on_alarm(signum, frame):
         raise Timeout()
@@ -253,7 +329,7 @@ def run(env, res):
             continue
         seen.add((kind, text))
         for ename, eng in engines.items():
-            if ename != 'default' and kind not in ('seq1', 'seq2', 'mut-del', 'soup', 'escape'):
+            if ename != 'default' and kind not in ('seq1', 'seq2', 'mut-del', 'soup', 'escape', 'boundary-alone', 'boundary-substituted'):
                 continue
             signal.alarm(20)
             try:
@@ -276,7 +352,7 @@ def run(env, res):
             j = judge(text, out)
             if j:
                 res.fail('oracle', j[0], j[1] + ' [engine %s]' % ename, dict(kind=kind, text=text, engine=ename))
-            elif drv is not None and not lexcfg.has_surrogate(text) and len(text) < 3000:
+            elif drv is not None and not lexcfg.has_surrogate(text) and (len(text) < 3000 or (kind.startswith('boundary') and len(text) < 20000)):
                 tree = None
                 if out[0] == 'ok':
                     try:
